@@ -356,7 +356,22 @@ def o_exceptions(ctx):
                                 ite(Or(lt(900, n1 + n2), And(lt(400, n1), lt(400, n2))), 1, 0)))
 
 
-def mk_end_state(name, icode_twin=None, params=None):
+def mutate_to_ala(txt, resnum):
+    out = []
+    for l in txt.split('\n'):
+        if l.startswith('ATOM') and int(l[22:26]) == resnum:
+            if l[12:16].strip() not in ('N', 'CA', 'C', 'O', 'CB'):
+                continue
+            l = l[:17] + 'ALA' + l[20:]
+        if l:
+            out.append(l)
+    return '\n'.join(out) + '\n'
+
+
+ACIDS, BASES = ('COO', 'CYS', 'TYR'), ('HIS', 'LYS', 'ARG')
+
+
+def mk_end_state(name, icode_twin=None, params=None, mutant=None):
     """sign and bound audit of every determinant the whole pipeline finally
     records (after iterations, coupling effects and the coupling probe), per
     conformation; structure under a symbolic grid shift"""
@@ -368,6 +383,9 @@ def mk_end_state(name, icode_twin=None, params=None):
             src, dst = icode_twin
             txt = ''.join((l[:22] + '%4d' % dst + 'A' + l[27:] + '\n') if (l.startswith('ATOM') and int(l[22:26]) == src) else (l + '\n')
                           for l in txt.split('\n') if l)
+        if mutant:
+            # sequence micro-heterogeneity: MODEL 1 has an alanine where MODEL 2 has the titratable residue
+            txt = M.models(mutate_to_ala(txt, mutant), txt)
         k = ctx.int('shift_thousandths', 0, 2509)
         t = k / 1000.0 if ctx.native else k / 1000
 
@@ -377,6 +395,15 @@ def mk_end_state(name, icode_twin=None, params=None):
         p = mol.version.parameters
         for cname in mol.conformation_names:
             conf = mol.conformations[cname]
+            # 'the two Coulomb determinants of an acid-base pair of reported protein side chains are equal and opposite'
+            side = [g for g in conf.groups if g.titratable and g.atom.type == 'atom' and g.residue_type not in ('N+', 'C-')]
+            for ga in [g for g in side if g.type in ACIDS]:
+                for gb in [g for g in side if g.type in BASES]:
+                    va = [d.value for d in ga.determinants['coulomb'] if d.label == gb.label]
+                    vb = [d.value for d in gb.determinants['coulomb'] if d.label == ga.label]
+                    if va or vb:
+                        ctx.claim('acid-base-pair-equal-and-opposite', eq(sum(va, 0) + sum(vb, 0), 0),
+                                  detail='conformation %s: %s <- %s %r, %s <- %s %r' % (cname, ga.label, gb.label, va, gb.label, ga.label, vb))
             charge_of = {}
             for g in conf.groups:
                 charge_of.setdefault(g.label, set()).add(g.charge)
@@ -401,6 +428,7 @@ def mk_end_state(name, icode_twin=None, params=None):
 
 
 def obligations(tier):
+    from .micro import BURIED as M_BURIED
     E = 'propka/energy.py:'
     D = 'propka/determinants.py:'
     obs = [
@@ -446,6 +474,13 @@ def obligations(tier):
                               code=[E + 'radial_volume_desolvation', 'propka/calculations.py:squared_distance'],
                               bounds='3 environment atoms (C4, N, CA) with symbolic x in [-30,30], fixed small y,z offsets', max_paths=400,
                               claim_doc='sign of energy_volume, 0 <= buried <= 1', wall_s=120))
+    for name, res in ([('pair_ASP_ARG', 87), ('pair_LYS_ASP', 43)] if tier == 'quick' else [('pair_ASP_ARG', 87), ('pair_ASP_ARG', 29), ('pair_LYS_ASP', 43), ('pair_GLU_ARG_TYR', 59), ('pair_GLU_ARG_TYR', 35)]):
+        obs.append(Obligation('O13-pipeline-end-state[%s,MODEL1:%d->ALA,buried]' % (name, res), mk_end_state(name, None, M_BURIED, res),
+                              code=['propka/run.py:single (whole pipeline)', D + 'set_determinants', 'propka/molecular_container.py:MolecularContainer.average_of_conformations',
+                                    'propka/group.py:Group.add_determinant', 'propka/group.py:Group.__iadd__'],
+                              bounds='two-MODEL file from micro-structure %s: residue %d is an alanine in MODEL 1; Nmin/Nmax lowered to 6/30; symbolic grid shift t in [0,2.509]' % (name, res),
+                              claim_doc='as O13, in particular: within each conformation the two Coulomb determinants of an acid-base side-chain pair are equal and opposite (after averaging too)',
+                              max_paths=5000, wall_s=170))
     fx = [('pair_ASP_ARG', None), ('pair_ASP_ARG', (30, 29)), ('pair_GLU_ARG_TYR', None), ('pair_LYS_ASP', None)]
     if tier == 'thorough':
         fx += [('pep8', None), ('pep8', (30, 29)), ('pair_ASP_ASP', None), ('nterm_ASP_LYS', None), ('lig_MTX', None), ('pair_CYS_CYS_bridge', None)]
